@@ -1,7 +1,44 @@
 """C02 - no lint fails internally on any input the parser accepts."""
+import json
+
 import common
 
-THEOREMS = ["c02_fatal_origin", "c02_framework", "c02_plain", "c02_walker_safe", "c02_walker_unchecked_refuted"]
+THEOREMS = ["c02_fatal_origin", "c02_framework", "c02_plain", "c02_walker_safe", "c02_walker_unchecked_refuted",
+            "c02_gentime_safe", "c02_gentime_guard_needed", "c02_bodies_total", "c02_gentime_range"]
+
+BODIES_HEADER = """From ZL Require Import Base.Bytes Base.Corr Kernels.Bodies.
+From Coq Require Import ZArith.
+Open Scope Z_scope.
+Definition oz (x : out Z) : Z := match x with Val s => s | OOR => -1 end.
+Definition chk_gentime (c : (Z * bytes) * (Z * bytes) * (Z * Z * Z)) : bool :=
+  match c with (d1, d2, (a, b, z)) => (oz (gen_seconds d1 d2) =? a) && (oz (gen_fraction d1 d2) =? b) && (oz (gen_not_zulu d1 d2) =? z) end.
+Definition chk_ku (c : bytes * (Z * Z * Z)) : bool :=
+  match c with (ku, (a, b, z)) => (oz (ku_incorrect_encoding ku) =? a) && (oz (ku_superfluous ku) =? b) && (oz (ku_incorrect_length ku) =? z) end.
+Definition chk_sct (c : bytes * Z) : bool := oz (sct_list (fst c)) =? snd c.
+Definition ob_eq (x : out bytes) (o : option bytes) : bool :=
+  match x, o with Val r, Some v => beqb r v | OOR, None => true | _, _ => false end.
+Definition chk_host (c : bytes * option bytes) : bool := ob_eq (get_host (fst c)) (snd c).
+Definition chk_authority (c : bool * bool * bytes * option bytes) : bool :=
+  match c with (ok, opq, u, o) => ob_eq (get_authority ok opq u) o end.
+Fixpoint lz_eqb (a b : list Z) : bool :=
+  match a, b with [] , [] => true | x :: a', y :: b' => (x =? y) && lz_eqb a' b' | _, _ => false end.
+Definition chk_bmp (c : bytes * option (option (list Z))) : bool :=
+  match parse_bmp (fst c), snd c with
+  | OOR, None => true
+  | Val None, Some None => true
+  | Val (Some us), Some (Some vs) => lz_eqb us vs
+  | _, _ => false
+  end.
+"""
+
+BODY_STREAMS = [
+    ("gentime", "chk_gentime", "Bodies.gen_seconds/gen_fraction/gen_not_zulu vs the three e_generalized_time_* lints on crafted validity fields"),
+    ("ku", "chk_ku", "Bodies.ku_incorrect_encoding/ku_superfluous/ku_incorrect_length vs the three keyUsage encoding lints on raw extension values"),
+    ("sct", "chk_sct", "Bodies.sct_list vs e_empty_sct_list on decoded OCTET STRINGs"),
+    ("host", "chk_host", "Bodies.get_host vs util.GetHost"),
+    ("authority", "chk_authority", "Bodies.get_authority vs util.GetAuthority (net/url's verdict as input)"),
+    ("bmp", "chk_bmp", "Bodies.parse_bmp vs util.ParseBMPString (code units)"),
+]
 
 
 def run(ctx):
@@ -18,6 +55,15 @@ def run(ctx):
                            "Walkers.explicit_text_lint (bound-checked) vs w_ext_cert_policy_explicit_text_includes_control on UTF8String explicitText")
     if not mon:
         common.report_disagreements(ctx, "walker", f, "Kernels.Walkers.explicit_text_lint", [])
+    # rule bodies with explicit indexing (Kernels/Bodies.v) against the real lints / helpers on directly built inputs
+    db = common.harness_json(["bodies"], timeout=1800)
+    monb = common.report_monitor_violations(ctx, db)
+    ctx.oblige("dynamic: every GeneralizedTime validity field the parser accepts has at least 5 octets (the guard of c02_gentime_safe) and the time-format lints do not panic on it", not monb)
+    for name, fn, model in BODY_STREAMS:
+        fb = common.corr_stream(ctx, name, db["cases"].get(name, []), BODIES_HEADER, fn, model)
+        if fb:
+            common.report_disagreements(ctx, name, fb, "Kernels.Bodies (" + name + ")", [])
+    ctx.notes["bodies_stats"] = db.get("stats", {})
     st = d.get("stats", {})
     ctx.add_eval(st.get("linted", 0), distinct=len(d["data"].get("classes", {})), traces=st.get("linted", 0))
     ctx.cov["rule"] = ("directed generation (blind byte mutation finds nothing): every UTF8String explicitText up to length 2 (thorough: 3) over a 12-symbol alphabet of ASCII, control, "
@@ -28,5 +74,7 @@ def run(ctx):
     ctx.notes["classes"] = d["data"].get("classes")
     ctx.notes["risk_sites_in_lint_closures"] = d["data"].get("risk_sites_total")
     ctx.partial = ("theorem-backed: fatal results arise only from the body, a configuration error or a recovered panic, and CRL/OCSP linting returns iff nothing panics (framework); the "
-                   "explicitText walker, modelled with explicit out-of-range outcomes, never panics (and the unchecked variant does on [0xC2]). Explored: every other rule body - the ~375 "
-                   "bodies of Go have no Coq semantics here - by directed hostile inputs and structure-aware mutation through the three entry points.")
+                   "explicitText walker, modelled with explicit out-of-range outcomes, never panics (and the unchecked variant does on [0xC2]); the three GeneralizedTime lints, the three "
+                   "keyUsage-encoding lints, the SCT-list lint, util.GetHost, util.GetAuthority and util.ParseBMPString are modelled the same way (Kernels/Bodies.v), proved never to index out "
+                   "of range (the time lints under the parser's length guard, refuted without it) and compared with the real code on directly built inputs. Explored: every other rule "
+                   "body - ~365 bodies of Go have no Coq semantics here - by directed hostile inputs and structure-aware mutation through the three entry points.")
